@@ -791,6 +791,25 @@ def run_detectors(ctx):
                         ctx.violation(nm, 'scalar', 'surface_measure')
                 except NotImplementedError:
                     pass
+                # vectorised measure: entry by entry the scalar values, documented shape (param.shape for curves, the broadcast
+                # shape of the two parameter arrays for surfaces)
+                try:
+                    if det.ndim == 1:
+                        pa = rng.uniform(-0.9, 0.9, size=(2, 3))
+                        ma = np.asarray(det.surface_measure(pa))
+                        refm = np.array([[det.surface_measure(float(q)) for q in row] for row in pa])
+                        want_shape = pa.shape
+                    else:
+                        p0, p1 = rng.uniform(-0.9, 0.9, size=(3, 1)), rng.uniform(-0.9, 0.9, size=(1, 2))
+                        ma = np.asarray(det.surface_measure((p0, p1)))
+                        refm = np.array([[det.surface_measure((float(a_), float(b_))) for b_ in p1[0]] for a_ in p0[:, 0]])
+                        want_shape = (3, 2)
+                    if ma.shape != want_shape:
+                        ctx.violation(nm, 'array', 'surface_measure-shape', got=ma.shape, want=want_shape)
+                    elif not np.allclose(ma, refm, atol=1e-12):
+                        ctx.violation(nm, 'array', 'surface_measure-vectorised!=scalar')
+                except NotImplementedError:
+                    pass
                 try:
                     nrm = det.surface_normal(p)
                     gg = np.atleast_2d(g)
@@ -988,6 +1007,18 @@ def run_utilities(ctx):
             v = rng.normal(size=3)
             if not np.allclose(U.axis_rotation(ax, ang[0], v), rodrigues(ax, ang[0]) @ v, atol=1e-12):
                 ctx.violation('axis_rotation', 'scalar', 'value!=Rodrigues')
+            # several vectors in bulk, with and without a shifted rotation centre (a shift along the axis does not matter)
+            V = rng.normal(size=(4, 3))
+            shift = rng.normal(size=3)
+            Rm = rodrigues(ax, ang[0])
+            bulk = np.asarray(U.axis_rotation(ax, ang[0], V))
+            if bulk.shape != (4, 3) or not np.allclose(bulk, V @ Rm.T, atol=1e-12):
+                ctx.violation('axis_rotation', 'bulk', 'value!=Rodrigues')
+            bulk_s = np.asarray(U.axis_rotation(ax, ang[0], V, axis_shift=shift))
+            if bulk_s.shape != (4, 3) or not np.allclose(bulk_s, (V - shift) @ Rm.T + shift, atol=1e-12):
+                ctx.violation('axis_rotation', 'bulk;shifted-centre', 'value!=Rodrigues-about-the-shifted-axis')
+            if not np.allclose(np.asarray(U.axis_rotation(ax, ang[0], V, axis_shift=shift + 2.3 * ax)), bulk_s, atol=1e-12):
+                ctx.violation('axis_rotation', 'bulk;shifted-centre', 'shift-along-the-axis-matters')
             for d in (2, 3):
                 f = rvec(rng, d)
                 kind = rep % 4
